@@ -108,28 +108,20 @@ type CondSpec struct {
 	Name string `json:"name"` // Lean name
 }
 
-// TableSpec: fields of the composite literal returned by a configuration constructor
-// (e.g. hybrid.DefaultConfig): string tables in source order (List String), integer /
-// duration fields (Nat) and boolean fields (Bool).
-type TableSpec struct {
-	Dir    string   `json:"dir"`
-	Func   string   `json:"func"`
-	NS     string   `json:"ns"`
-	Fields []string `json:"fields"`
-}
-
 type Spec struct {
-	ExtSpec                 // additive kinds, see ext.go
-	Module      string      `json:"module"`       // output file Gen/<Module>.lean
-	Imports     []string    `json:"imports"`      // other Gen modules this one refers to
-	LeanImports []string    `json:"lean_imports"` // hand-written Lean modules (receiver structures of translated predicates)
-	Lits        []LitSpec   `json:"lits"`
-	Consts      []ConstSpec `json:"consts"`
-	Locals      []LocalSpec `json:"locals"`
-	Preds       []PredSpec  `json:"preds"`
-	Skels       []SkelSpec  `json:"skels"`
-	Routes      []RouteSpec `json:"routes"`
-	Flows       []FlowSpec  `json:"flows"` // control skeletons, see flow.go
+	ExtSpec                    // additive kinds, see ext.go
+	Module      string         `json:"module"`       // output file Gen/<Module>.lean
+	Imports     []string       `json:"imports"`      // other Gen modules this one refers to
+	LeanImports []string       `json:"lean_imports"` // hand-written Lean modules (receiver structures of translated predicates)
+	Lits        []LitSpec      `json:"lits"`
+	CfgTables   []CfgTableSpec `json:"cfgtables"` // see cfgtable.go
+	StrLists    []StrListSpec  `json:"strlists"`  // see strlist.go
+	Consts      []ConstSpec    `json:"consts"`
+	Locals      []LocalSpec    `json:"locals"`
+	Preds       []PredSpec     `json:"preds"`
+	Skels       []SkelSpec     `json:"skels"`
+	Routes      []RouteSpec    `json:"routes"`
+	Flows       []FlowSpec     `json:"flows"` // control skeletons, see flow.go
 	// additive extensions, see tables.go
 	Enums        []EnumSpec    `json:"enums"`
 	SelSets      []SelSetSpec  `json:"selsets"`
@@ -137,8 +129,6 @@ type Spec struct {
 	Guards       []SkelSpec    `json:"guards"` // functions whose `if` conditions are emitted as source text (Gen.Guard.<name>)
 	Conds        []CondSpec    `json:"conds"`
 	ModelImports []string      `json:"model_imports"` // hand-written Model modules (receiver structures of translated predicates)
-	Tables      []TableSpec `json:"tables"`
-	StrLists    []StrListSpec `json:"strlists"` // see strlist.go
 }
 
 var fset = token.NewFileSet()
@@ -356,17 +346,6 @@ func leanIdent(s string) string {
 	return strings.ReplaceAll(s, "-", "_")
 }
 
-// leanLocal quotes Go identifiers that are Lean keywords (e.g. a loop variable named `prefix`).
-func leanLocal(s string) string {
-	switch s {
-	case "prefix", "infix", "infixl", "infixr", "postfix", "notation", "end", "from", "at", "by", "do", "then", "else",
-		"fun", "have", "show", "open", "in", "instance", "local", "macro", "syntax", "section", "namespace", "where",
-		"with", "match", "let", "if", "export", "universe", "variable", "theorem", "def", "example", "deriving", "mutual":
-		return "\u00ab" + s + "\u00bb"
-	}
-	return s
-}
-
 // ---------------------------------------------------------------- predicates
 
 type predCtx struct {
@@ -399,8 +378,6 @@ func (c *predCtx) expr(e ast.Expr) string {
 		}
 		if e.Name == c.recv || c.locals[e.Name] {
 			return leanVar(e.Name)
-		}
-			return leanLocal(e.Name)
 		}
 		if _, ok := c.p.consts[e.Name]; ok {
 			return c.spec.ConstNS + "." + e.Name
@@ -674,8 +651,6 @@ func (c *predCtx) stmts(list []ast.Stmt, indent string) string {
 					res := c.expr(rs.Results[0])
 					delete(c.locals, v)
 					return indent + "if (" + c.expr(s.X) + ").any (fun " + leanVar(v) + " => " + cond + ") then " + res + "\n" + indent + "else\n" + c.stmts(rest, indent+"  ")
-				}
-					return indent + "if (" + c.expr(s.X) + ").any (fun " + leanLocal(v) + " => " + cond + ") then " + res + "\n" + indent + "else\n" + c.stmts(rest, indent+"  ")
 				}
 			}
 		}
@@ -1071,29 +1046,6 @@ func genLocals(root string, ls *LocalSpec, out *strings.Builder) {
 				}
 				hits = append(hits, hit{c.Name, evalConst(lp, n.Y, 0, 0).i})
 			}
-// ---------------------------------------------------------------- tables
-
-// genTable emits the listed fields of the (single) composite literal that the
-// function returns: []string{...} as List String, true/false as Bool, anything
-// else evaluated as a natural-number constant.
-func genTable(root string, ts *TableSpec, out *strings.Builder) {
-	p := loadPkg(root, ts.Dir)
-	fd, ok := p.funcs[ts.Func]
-	if !ok {
-		die("table: function %s not found in %s", ts.Func, ts.Dir)
-	}
-	var lit *ast.CompositeLit
-	n := 0
-	ast.Inspect(fd.Body, func(nd ast.Node) bool {
-		if rs, ok := nd.(*ast.ReturnStmt); ok && len(rs.Results) == 1 {
-			e := rs.Results[0]
-			if u, ok := e.(*ast.UnaryExpr); ok && u.Op == token.AND {
-				e = u.X
-			}
-			if cl, ok := e.(*ast.CompositeLit); ok {
-				lit = cl
-				n++
-			}
 		}
 		return true
 	})
@@ -1166,47 +1118,6 @@ func genGuards(root string, ss *SkelSpec, out *strings.Builder) {
 	})
 	fmt.Fprintf(out, "def %s : List String := [%s]\n", ss.Name, strings.Join(conds, ", "))
 }
-	if lit == nil || n != 1 {
-		die("table: %s must return exactly one composite literal (found %d)", ts.Func, n)
-	}
-	vals := map[string]ast.Expr{}
-	for _, el := range lit.Elts {
-		if kv, ok := el.(*ast.KeyValueExpr); ok {
-			if k, ok := kv.Key.(*ast.Ident); ok {
-				vals[k.Name] = kv.Value
-			}
-		}
-	}
-	fmt.Fprintf(out, "namespace %s\n", ts.NS)
-	for _, f := range ts.Fields {
-		e, ok := vals[f]
-		if !ok {
-			die("table: field %s not set in the literal returned by %s", f, ts.Func)
-		}
-		if cl, ok := e.(*ast.CompositeLit); ok {
-			items := []string{}
-			for _, el := range cl.Elts {
-				v := evalConst(p, el, 0, 0)
-				if !v.isStr {
-					die("table: field %s of %s: non-string element", f, ts.Func)
-				}
-				items = append(items, leanStr(v.s))
-			}
-			fmt.Fprintf(out, "def %s : List String := [%s]\n", leanIdent(f), strings.Join(items, ", "))
-			continue
-		}
-		if id, ok := e.(*ast.Ident); ok && (id.Name == "true" || id.Name == "false") {
-			fmt.Fprintf(out, "def %s : Bool := %s\n", leanIdent(f), id.Name)
-			continue
-		}
-		v := evalConst(p, e, 0, 0)
-		if v.isStr || v.isF || v.i < 0 {
-			die("table: field %s of %s is not a natural number", f, ts.Func)
-		}
-		fmt.Fprintf(out, "def %s : Nat := %d\n", leanIdent(f), v.i)
-	}
-	fmt.Fprintf(out, "end %s\n\n", ts.NS)
-}
 
 // ---------------------------------------------------------------- main
 
@@ -1240,9 +1151,8 @@ func genModule(repo string, spec *Spec, outDir string) {
 	for i := range spec.Lits {
 		genLit(repo, &spec.Lits[i], &cs)
 	}
-	cs.WriteString("open Tunnox.PredPrelude\nnamespace Gen\n\n")
-	for i := range spec.Tables {
-		genTable(repo, &spec.Tables[i], &cs)
+	for i := range spec.CfgTables {
+		genCfgTable(repo, &spec.CfgTables[i], &cs)
 	}
 	for i := range spec.StrLists {
 		genStrList(repo, &spec.StrLists[i], &cs)
